@@ -219,6 +219,14 @@ func (ut UnitType) findByAlias(alias string) *Unit {
 // sniffUnit simpifies the input alias and returns the unit associated with the
 // specified alias. It returns nil if the unit with such alias is not found.
 func (ut UnitType) sniffUnit(unit string) *Unit {
+	// The canonical name is what automatic unit selection returns (e.g.
+	// "u*GCU"), so it must be accepted as a unit as well. Canonical names
+	// are case sensitive: "m*GCU" and "M*GCU" are different units.
+	for _, u := range ut.Units {
+		if u.CanonicalName == unit {
+			return &u
+		}
+	}
 	unit = strings.ToLower(unit)
 	// An exact alias wins: "μs" is three bytes long and must not lose its "s".
 	if u := ut.findByAlias(unit); u != nil {
